@@ -35,8 +35,7 @@ VTBB_EXCLUDE = {"arena.cpp", "arena_slot.cpp", "governor.cpp", "main.cpp", "mark
                 "profiling.cpp", "misc_ex.cpp", "version.cpp", "misc.cpp", "allocator.cpp", "exception.cpp",
                 "semaphore.cpp", "address_waiter.cpp", "concurrent_bounded_queue.cpp", "queuing_rw_mutex.cpp",
                 "rtm_mutex.cpp", "rtm_rw_mutex.cpp"}
-VTBB_KEEP = {"parallel_pipeline.cpp", "exception.cpp", "allocator.cpp", "misc.cpp", "address_waiter.cpp",
-             "concurrent_bounded_queue.cpp", "queuing_rw_mutex.cpp", "rtm_mutex.cpp", "rtm_rw_mutex.cpp", "semaphore.cpp"}
+VTBB_KEEP = {"parallel_pipeline.cpp", "exception.cpp"}
 
 
 def sh(cmd, **kw):
